@@ -30,7 +30,7 @@ STUBBED = ["user-owned mean / kernel / model.forward with a SimFault fault point
 ASSUMPTIONS = [
     "oracle = a freshly constructed model of the same recipe holding the state read through public getters "
     "(state_dict, train_inputs, train_targets, fixed noise), evaluated by the same real code under the same settings and torch seed",
-    "tolerance 1e-8*max(1,|ref|) when every prediction since the last cache reset ran Cholesky code, 1e-3 when CG/Lanczos was enabled",
+    "tolerance 1e-6*max(1,|ref|) when every prediction since the last cache reset ran Cholesky code (observed <= 3e-8: low-rank/Woodbury paths and 1e-8 jitter), 1e-5 for grid-structured kernels (Toeplitz vs dense maths), 1e-3 when CG/Lanczos was enabled",
     "parameter edits happen only in training mode (C03 excludes eval-mode edits)",
 ]
 EXPECTED_PROBES = {
@@ -367,7 +367,7 @@ def observe_and_compare(ctx, i, op, through_lik=False, opname="predict"):
     if rm[0] == "ok" and rf[0] == "ok":
         bad, mx = compare.compare_obs(rm[1], rf[1], tol)
         if not bad:
-            out.maxdiff = max(out.maxdiff, mx)
+            out.note_diff("tol=%g" % tol, mx)
         if bad:
             q, diff, scale = bad[0]
             out.violate(
@@ -428,7 +428,7 @@ def tolerance(recipe, iterative):
     if iterative:
         return compare.TOL_ITER
     if recipe["family"] in ("kissgp", "grid"):
-        return 1e-6
+        return 1e-5
     return compare.TOL_EXACT
 
 
